@@ -71,6 +71,136 @@ impl Join for RayonJoin {
     }
 }
 
+// ---------------------------------------------------------------------------
+// Verification hook (compiled only with `--cfg blake3_team_blake3_verif`, std only).
+//
+// `ScriptedJoin` is a `Join` implementation whose execution order is chosen per split by the
+// verification harness: left half first, right half first, or both halves on two real threads,
+// with optional delays injected before either half starts. `compress_subtree_wide` tells it which
+// tree node is being split through `note_split`. `Hasher::verif_update_scripted` runs the
+// otherwise private `update_with_join` with it.
+// ---------------------------------------------------------------------------
+#[cfg(all(blake3_team_blake3_verif, feature = "std"))]
+pub mod verif {
+    use super::Join;
+    use std::cell::Cell;
+    use std::sync::RwLock;
+
+    /// What the harness wants done at one split of the tree.
+    #[derive(Clone, Copy, Debug)]
+    pub struct Decision {
+        /// 0 = left half first, 1 = right half first, 2 = two threads.
+        pub order: u8,
+        /// Delay in microseconds before the left half starts.
+        pub delay_left_us: u32,
+        /// Delay in microseconds before the right half starts.
+        pub delay_right_us: u32,
+    }
+
+    /// Callbacks installed by the harness. `session` identifies the scripted update in
+    /// progress, (`chunk_counter`, `len`) identify the subtree being split.
+    #[derive(Clone, Copy)]
+    pub struct Callbacks {
+        pub decide: fn(session: usize, chunk_counter: u64, len: u64) -> Decision,
+        /// `half`: 0 = left, 1 = right. `phase`: 0 = begin, 1 = end.
+        pub event: fn(session: usize, chunk_counter: u64, len: u64, half: u8, phase: u8),
+    }
+
+    static CALLBACKS: RwLock<Option<Callbacks>> = RwLock::new(None);
+
+    std::thread_local! {
+        static SESSION: Cell<usize> = const { Cell::new(0) };
+        static NODE: Cell<(u64, u64)> = const { Cell::new((0, 0)) };
+    }
+
+    pub fn install(callbacks: Option<Callbacks>) {
+        *CALLBACKS.write().unwrap() = callbacks;
+    }
+
+    pub(crate) fn set_session(session: usize) -> usize {
+        SESSION.with(|s| s.replace(session))
+    }
+
+    #[inline]
+    pub(crate) fn note_split(chunk_counter: u64, len: u64) {
+        NODE.with(|n| n.set((chunk_counter, len)));
+    }
+
+    fn delay(us: u32) {
+        if us > 0 {
+            std::thread::sleep(std::time::Duration::from_micros(us as u64));
+        }
+    }
+
+    pub enum ScriptedJoin {}
+
+    impl Join for ScriptedJoin {
+        fn join<A, B, RA, RB>(oper_a: A, oper_b: B) -> (RA, RB)
+        where
+            A: FnOnce() -> RA + Send,
+            B: FnOnce() -> RB + Send,
+            RA: Send,
+            RB: Send,
+        {
+            let session = SESSION.with(|s| s.get());
+            let (counter, len) = NODE.with(|n| n.get());
+            let callbacks = *CALLBACKS.read().unwrap();
+            let Some(cb) = callbacks else {
+                return (oper_a(), oper_b());
+            };
+            let decision = (cb.decide)(session, counter, len);
+            let run_a = move || {
+                delay(decision.delay_left_us);
+                (cb.event)(session, counter, len, 0, 0);
+                let ra = oper_a();
+                (cb.event)(session, counter, len, 0, 1);
+                ra
+            };
+            let run_b = move || {
+                delay(decision.delay_right_us);
+                (cb.event)(session, counter, len, 1, 0);
+                let rb = oper_b();
+                (cb.event)(session, counter, len, 1, 1);
+                rb
+            };
+            match decision.order {
+                0 => {
+                    let ra = run_a();
+                    let rb = run_b();
+                    (ra, rb)
+                }
+                1 => {
+                    let rb = run_b();
+                    let ra = run_a();
+                    (ra, rb)
+                }
+                _ => std::thread::scope(|scope| {
+                    let handle = scope.spawn(move || {
+                        set_session(session);
+                        run_b()
+                    });
+                    let ra = run_a();
+                    let rb = match handle.join() {
+                        Ok(rb) => rb,
+                        Err(payload) => std::panic::resume_unwind(payload),
+                    };
+                    (ra, rb)
+                }),
+            }
+        }
+    }
+
+    impl crate::Hasher {
+        /// Verification hook: `update` driven by `ScriptedJoin` under the given session id.
+        pub fn verif_update_scripted(&mut self, input: &[u8], session: usize) -> &mut Self {
+            let previous = set_session(session);
+            self.update_with_join::<ScriptedJoin>(input);
+            set_session(previous);
+            self
+        }
+    }
+}
+
 #[cfg(test)]
 mod test {
     use super::*;
